@@ -106,7 +106,9 @@ func genScan(profile string, ending bool) func(seed uint64, r *rng.Rand) *Plan {
 			for i := 0; i < nf; i++ {
 				t := g.R.Intn(len(p.Tasks))
 				o := g.R.Intn(len(p.Tasks[t].Ops))
-				switch g.R.Intn(6) {
+				switch g.R.Intn(7) {
+				case 6: // a slow regionserver: renewals and fetches overlap
+					p.Faults = append(p.Faults, &Fault{On: "step", N: 1, Act: "slow", Server: g.R.Intn(p.Layout.Servers), Dur: []int{1, 10, 40, 100}[g.R.Intn(4)]})
 				case 0, 1: // error on the r-th scan request
 					cls := [][]string{hb.AppClasses, hb.RetryableClasses, hb.NotServingClasses, {hb.ExUnknownScan}}[g.R.Intn(4)]
 					p.Faults = append(p.Faults, &Fault{On: "exec", N: g.R.Range(1, 20), Act: "rule",
@@ -295,10 +297,13 @@ func (w *World) checkC14() []Violation {
 					}
 					if x.Kind == "ScanOpen" {
 						// The scanner learned the id if the caller got rows of that
-						// very response, or if no context ended (a response that
-						// arrives together with a cancellation may be dropped by
-						// the reader or by the caller's select).
-						if cs := w.consumedStep(x); cs != 0 && r.CancelStep == 0 {
+						// very response, or if no context ended - neither cancelled nor
+						// past its deadline - while the scan was in progress (a response
+						// that arrives together with or after the end of the context is
+						// dropped by the reader or by the caller's select: with a slow
+						// server the open request is answered after the caller has gone).
+						expired := r.Op.Ctx.Kind == "timeout" && r.ReturnT >= r.InvokeT+ms(r.Op.Ctx.MS)
+						if cs := w.consumedStep(x); cs != 0 && r.CancelStep == 0 && !expired {
 							learned = true
 						}
 						for _, it := range r.Scan {
